@@ -89,10 +89,10 @@ def classifyTok (tok : String) : DTok Float :=
     else if last == 'i' then (match count with | some n => .interp n | none => .bad "bad interpolation count")
     else if last == 'm' then
       (if body.isEmpty then .bad "m needs a multiplier" else
-        match parseFloat? body with | some f => .mul f | none => .bad "bad multiplier")
+        match parseFortran? body with | some f => .mul f | none => .bad "bad multiplier")
     else if last == 'j' then (match count with | some n => .jump n | none => .bad "bad jump count")
     else if cs.length ≥ 3 && t.endsWith "log" then .logi 0
-    else match parseFloat? t with
+    else match parseFortran? t with
       | some x => .num x
       | none => .bad s!"not a number: {t}"
 
